@@ -321,6 +321,7 @@ SubOut(st, a) ==
 
 UnsubOut(st, a) ==
     IF ~Discovered(st, a.p) THEN { Outcome(st, NoOut, {}, "ok", Ideal) }
+    ELSE IF a.dev = "other" THEN { Outcome(st, CallRes(a, FALSE), {}, "ok", Ideal) }
     ELSE IF Entry(a.p, a.c, a.s) \in st.subs
     THEN { Outcome([st EXCEPT !.subs = @ \ {Entry(a.p, a.c, a.s)}], CallRes(a, TRUE),
                    {Ev("sub", "remove", a.p, "", a.c, a.s)}, "ok", Ideal) }
@@ -342,6 +343,7 @@ Dev_UnbindOverDelete(st, a) ==
 
 UnbindOut(st, a) ==
     IF ~Discovered(st, a.p) THEN { Outcome(st, NoOut, {}, "ok", Ideal) }
+    ELSE IF a.dev = "other" THEN { Outcome(st, CallRes(a, FALSE), {}, "ok", Ideal) }
     ELSE IF Entry(a.p, a.c, a.s) \in st.binds
     THEN { Outcome([st EXCEPT !.binds = @ \ {Entry(a.p, a.c, a.s)}], CallRes(a, TRUE),
                    {Ev("bind", "remove", a.p, "", a.c, a.s)}, "ok", Ideal) }
@@ -573,9 +575,12 @@ RegCallsF(st, kind) ==
     UNION { UNION { {[a |-> kind, p |-> p, c |-> c, s |-> s, ft |-> ft, dev |-> dv[1], sdev |-> dv[2], ack |-> k] :
                         c \in CliArgs(kind), ft \in FtArgs(kind, s), dv \in DevPairs(kind), k \in Acks(kind)}
                     : s \in SrvArgs(kind) } : p \in DiscP(st) }
+\* (rich deletes also name ANOTHER peer's device in the client address: such a delete addresses nothing the sender owns
+\* and is refused - in particular it does not remove that peer's entry)
 DelCallsF(st, kind) ==
     {[a |-> kind, p |-> p, c |-> c, s |-> s, dev |-> dv[1], sdev |-> dv[2], ack |-> k] :
-        p \in DiscP(st), c \in CliArgs(kind), s \in SrvArgs(kind), dv \in DevPairs(kind), k \in Acks(kind)}
+        p \in DiscP(st), c \in CliArgs(kind), s \in SrvArgs(kind),
+        dv \in DevPairs(kind) \cup (IF R(kind) THEN {<<"other", "own">>} ELSE {}), k \in Acks(kind)}
 
 \* fel: the optional cmd "function" element: absent, naming the payload's function, or naming another one (ofn)
 WriteArgs(st) ==
@@ -750,10 +755,12 @@ FanoutExact(st, a, o) ==
         \A q \in Peers : OutKinds(o, q, "notify") \subseteq
               {Notify(a.s, x.c, a.fn, a.v) : x \in {y \in st.subs : y.p = q /\ y.s = a.s}}
 \* C08/C09: a delete removes exactly the addressed entry
+\* (a delete whose client address names another peer's device addresses no entry of the sender: nothing is removed)
 DeleteExact(st, a, o) ==
-    /\ a.a = "unsub"  => /\ o.st.subs = st.subs \ {Entry(a.p, a.c, a.s)}
+    LET addressed == IF a.dev = "other" THEN {} ELSE {Entry(a.p, a.c, a.s)} IN
+    /\ a.a = "unsub"  => /\ o.st.subs = st.subs \ addressed
                          /\ o.st.binds = st.binds
-    /\ a.a = "unbind" => /\ o.st.binds = st.binds \ {Entry(a.p, a.c, a.s)}
+    /\ a.a = "unbind" => /\ o.st.binds = st.binds \ addressed
                          /\ o.st.subs = st.subs
 
 \* C06: an announcement changes the tree of that peer only; every entity that appeared / disappeared has its event;
